@@ -131,6 +131,51 @@ func c11Obs(shape *tshape, op string, g uint64, expand bool, vshape *tshape, h t
 				return "res=ERR"
 			}
 			return "res=OK orig=" + d0 + " node=" + d.dump(b)
+		case "filld", "filll", "fillc":
+			// the subtree constructors with this tree as the repeated bottom node: g is the
+			// depth; filll: vshape is a data leaf whose first byte is the length; fillc: the
+			// bottom repeated that many times as explicit contents.  Every root remembered in
+			// the result - before and after it is hashed - must be the root of the node's
+			// children (memo), and the root is the model's.
+			var n2 tree.Node
+			var err error
+			switch op {
+			case "filld":
+				n2 = tree.SubtreeFillToDepth(n, uint8(g))
+			case "filll":
+				n2, err = tree.SubtreeFillToLength(n, uint8(g), uint64(vshape.data[0]))
+			default:
+				ns := make([]tree.Node, vshape.data[0])
+				for i := range ns {
+					ns[i] = n
+				}
+				n2, err = tree.SubtreeFillToContents(ns, uint8(g))
+			}
+			if err != nil {
+				return "res=ERR"
+			}
+			memo := func() string {
+				ok := true
+				seen := map[*tree.PairNode]bool{}
+				var walk func(x tree.Node)
+				walk = func(x tree.Node) {
+					p, isPair := x.(*tree.PairNode)
+					if !isPair || seen[p] {
+						return
+					}
+					seen[p] = true
+					if p.Value != (tree.Root{}) && p.Value != h(rawRoot(p.LeftChild, h), rawRoot(p.RightChild, h)) {
+						ok = false
+					}
+					walk(p.LeftChild)
+					walk(p.RightChild)
+				}
+				walk(n2)
+				return b01(ok)
+			}
+			m1 := memo()
+			root := n2.MerkleRoot(h)
+			return "res=OK memo=" + m1 + " root=" + rootHex(root) + " memo2=" + memo() + " raw=" + rootHex(rawRoot(n2, h))
 		case "set":
 			v := vshape.build()
 			dv := d.dump(v)
